@@ -1096,7 +1096,7 @@ func authInfoUsers(c *km.Ctx, get *ssa.Function) []infoUser {
 			}
 			// a reading stage new to the tree that hands the info (and a verdict) to the handler it was cut out
 			// of: the handler is the user
-			if !c.P.IsRecorded(cs.Caller) && handsBackInfo(cs.Caller, cl) {
+			if res := cs.Caller.Signature.Results(); !c.P.IsRecorded(cs.Caller) && handsBackInfo(cs.Caller, cl) && !(res.Len() == 2 && km.NamedTypeOf(res.At(0).Type()) == KMD+".authInfo" && isErrorType(res.At(1).Type())) {
 				walk(cs.Caller)
 				continue
 			}
